@@ -8,6 +8,8 @@ CONSTANTS
   MinRs <- MinRsT
   MutRs = {0, 3}
   MinDists <- MinDistsT
+  TlLists <- TrTlLists
+  MinDurs <- MinDursT
   MaxDrops = 2000
   MaxEms = 400
   MaxRefs = 12
@@ -22,3 +24,4 @@ INVARIANT Progress
 INVARIANT Aligned
 INVARIANT Owned
 INVARIANT ArrShared
+INVARIANT TlValid
